@@ -83,6 +83,12 @@ func (c *c19Gen) module(i int, edges [][]int) string {
 	case 1:
 		c.kinds["__all__"] = true
 		fmt.Fprintf(&sb, "__all__ = ['lst%d']\n", i)
+	case 2:
+		if g.Chance(1, 3) {
+			// a name the module does not have: the star import raises AttributeError and binds nothing for it
+			c.kinds["__all__-missing-name"] = true
+			fmt.Fprintf(&sb, "__all__ = ['x%d', 'nosuch%d', 'lst%d']\n", i, i, i)
+		}
 	}
 	for _, s := range bottom {
 		sb.WriteString(s + "\n")
@@ -105,7 +111,7 @@ func (c *c19Gen) main() string {
 			st = "\n        failed = True"
 		}
 		return "if not failed:\n    try:\n        " + strings.ReplaceAll(stmt, "\n    ", "\n        ") + "\n        lg.log.append('ok')\n    except ImportError:\n        lg.log.append('ImportError')" + st +
-			"\n    except AttributeError:\n        lg.log.append('AttributeError')\n    except NameError:\n        lg.log.append('NameError')\n"
+			"\n    except AttributeError:\n        lg.log.append('AttributeError')" + st + "\n    except NameError:\n        lg.log.append('NameError')\n"
 	}
 	wrap := func(stmt string) string { return wrapx(stmt, true) }
 	nsteps := g.Int(2, 7)
